@@ -47,6 +47,12 @@ type unsyncReader struct{}
 
 func (unsyncReader) Read(b []byte) (int, error) {
 	z := uint64(time.Now().UnixNano())
+	if z&3 == 0 && len(b) == 4 {
+		// every fourth word or so is all ones: rejected by every bound that is not a power of two,
+		// so the redraw path is taken by several goroutines at once as well
+		b[0], b[1], b[2], b[3] = 0xFF, 0xFF, 0xFF, 0xFF
+		return 4, nil
+	}
 	for i := range b {
 		z += 0x9e3779b97f4a7c15
 		x := z
